@@ -1012,7 +1012,7 @@ def pool_family(run, replay):
     def mjob(cfg, emit):
         def f():
             w, n, e, kind = cfg
-            return vk.run_model(run, "WorkerPool-%s-%d-%d-%d" % (kind, w, n, e), "WorkerPool.tla",
+            return vk.run_model(run, "WorkerPool-%s-%d-%d-%d%s" % (kind, w, n, e, "-emit" if emit else ""), "WorkerPool.tla",
                                 POOL_CFG % (w, n, e, kind, "TRUE", "FALSE", "TRUE" if emit else "FALSE"), workers=4, heap="6g")
         return f
     outs = vk.parallel([mjob(c, True) for c in emit_cfgs] + [mjob(c, False) for c in check_cfgs], nproc=4)
